@@ -34,7 +34,9 @@ REGIMES = ["cold", "sparse", "half", "dense", "rows"]
 
 def _inner_entries():
     # entries whose X is a transformed matrix (precomputed kernel) are built by poolcase only
-    return [n for n, e in POOL.items() if e.kind in ("clf", "both") and not e.is_wrapper and e.x_transform is None]
+    # (the sub-sampling wrapper is a single-annotator strategy like any other; the parallel wrapper is documented for
+    # batch size 1 with feature-row candidates only)
+    return [n for n, e in POOL.items() if e.kind in ("clf", "both") and (not e.is_wrapper or n.startswith("Sub_")) and e.x_transform is None]
 
 
 def gen_cases(tier, seed):
@@ -213,7 +215,8 @@ def run_case(desc):
     some_cand_labelled = bool(len(cand_rows) and (~np.isnan(Y[cand_rows])).any(axis=1).any()) if cmode != "feat" else False
     cand_without_annotator = bool((M[rows_idx].sum(axis=1) == 0).any()) if len(rows_idx) else False
     case_info = {"entry": e, "arbitrary_index_ok": None if e is None else e.arbitrary_index_ok, "some_candidate_labelled": some_cand_labelled,
-                 "candidate_without_annotator": cand_without_annotator}
+                 "candidate_without_annotator": cand_without_annotator,
+                 "inner_is_subsampling_wrapper": bool(e is not None and e.is_wrapper and e.name.startswith("Sub_"))}
     viol = []
 
     def add(kind, detail):
